@@ -134,6 +134,19 @@ META["C08"] = {
     "level_note": "trusts testing/synctest's fake clock for timeouts/deadlines/backoff and the recording handlers",
 }
 
+META["C13"] = {
+    "budget": {"quick": 30, "thorough": 600},
+    "rule": "one run = generated schema + handler plan (vetoes, handlers that park, handler-issued mutations) + 1..2 mutator tasks (incl. Eval with a parked function) + a subscriber creating 1..8 waits of every When*/NewStateCtx flavour (most with unreachable conditions) + 1..3 OnDispose handlers + a nemesis landing Dispose / Dispose twice / parent-context cancel / Dispose+cancel / Dispose from inside a handler / DisposeForce at a scheduled step, with scheduling points at the stages of doDispose; after the horizon 30 (quick) or all (thorough) reflection-enumerated public methods are called on the disposed machine; non-trivial = every run; distinct = distinct event-log hashes",
+    "components": {"real": MACHINE_REAL, "stub": []},
+    "assumptions": [
+        "the locked, sleeping region of doDispose is executed atomically (Hold bracket): other goroutines start their calls after it, which is the set of outcomes the real locks allow",
+        "horizon = DisposeTimeout + 10s + 5s of fake time after the last activity",
+    ],
+    "probes": ["dispose-while-idle", "dispose-during-transition", "dispose-during-final-handler", "dispose-from-handler", "dispose-twice"],
+    "level_text": "seeded search over the landing point of Dispose/DisposeForce/parent-context cancel in a running workload: WhenDisposed closed, every channel and state context released, dispose handlers exactly once, no goroutine of the machine left in the bubble, every public method returns promptly with a neutral value afterwards",
+    "level_note": "trusts testing/synctest (fake clock, end-of-bubble goroutine accounting) and the hook placement in doDispose",
+}
+
 NOT_YET = "check not built yet in this session (planned, see DESIGN.md section 5)"
 NOT_APPLICABLE = {
     "C19": "no schedule, clock, fault or multi-party behaviour: a static well-formedness scan of schema literals plus an exhaustive breadth-first enumeration of reachable active sets, i.e. bounded model checking, not deterministic simulation (DESIGN.md section 6)",
